@@ -25,6 +25,7 @@ VERIF = os.path.dirname(os.path.dirname(os.path.dirname(os.path.abspath(__file__
 LEAN = os.path.join(VERIF, "lean")
 HARNESS = os.path.join(VERIF, "harness")
 REPO = os.environ.get("VERIF_REPO", "/repo")
+COVER = bool(os.environ.get("VERIF_COVER"))
 ALLOWED_AXIOMS = {"propext", "Classical.choice", "Quot.sound"}
 FORBIDDEN = re.compile(r"\b(sorry|admit|native_decide|bv_decide|implemented_by|unsafe)\b|maxHeartbeats 0|^\s*axiom\s", re.M)
 
@@ -104,7 +105,8 @@ class Check:
             sums |= set(open(extra).read().splitlines())
         with open(os.path.join(self.work, "go.sum"), "w") as f:
             f.write("\n".join(sorted(x for x in sums if x.strip())) + "\n")
-        args = (["go", "build", "-modfile", os.path.join(self.work, "go.mod"), "-tags", "verif"] + (["-race"] if race else [])
+        cover = ["-cover", "-coverpkg=github.com/vulcand/oxy/v2/..."] if COVER else []
+        args = (["go", "build", "-modfile", os.path.join(self.work, "go.mod"), "-tags", "verif"] + (["-race"] if race else []) + cover
                 + ["-o", self.bin_h, "./cmd/" + self.P.HARNESS])
         r = run(args, cwd=HARNESS, env=GOENV)
         if r.returncode != 0:
@@ -212,7 +214,7 @@ class Check:
         import signal
         inp = os.path.join(self.work, "in.%d.%d" % (os.getpid(), id(text) % 1000003))
         p = subprocess.Popen([binary] + args, stdin=subprocess.PIPE, stdout=subprocess.PIPE, stderr=subprocess.PIPE, text=True,
-                             cwd=self.work, env=dict(GOENV, TMPDIR=self.work), start_new_session=True)
+                             cwd=self.work, env=self.run_env(), start_new_session=True)
         try:
             o, e = p.communicate(text, timeout=timeout)
             rc = p.returncode
@@ -228,6 +230,56 @@ class Check:
         if lines and lines[-1] == "":
             lines = lines[:-1]
         return lines, (e or "")[-2000:], rc
+
+    def run_env(self):
+        env = dict(GOENV, TMPDIR=self.work)
+        if COVER:
+            os.makedirs(os.path.join(self.work, "cov"), exist_ok=True)
+            env["GOCOVERDIR"] = os.path.join(self.work, "cov")
+        return env
+
+    def coverage_report(self):
+        """VERIF_COVER=1: which statements of the anchored source files the correspondence run executed (Go's own coverage
+        instrumentation of the harness binary).  Written to out/<id>/coverage.txt and summarised in the evidence: the tie
+        has only *seen* what was executed, so an unexecuted block is where a change could hide."""
+        cov = os.path.join(self.work, "cov")
+        if not os.path.isdir(cov) or not os.listdir(cov):
+            return
+        txt = os.path.join(self.work, "cov.txt")
+        r = run(["go", "tool", "covdata", "textfmt", "-i=" + cov, "-o=" + txt], env=GOENV)
+        if r.returncode != 0 or not os.path.exists(txt):
+            self.extra["statement_coverage"] = "covdata failed: " + r.stdout[-200:]
+            return
+        anchors = set(getattr(self.P, "ANCHORS", []))
+        for l in open(os.path.join(VERIF, "properties.jsonl")):
+            pr = json.loads(l)
+            if pr["id"] == self.id:
+                anchors |= set(pr["anchors"]["files"])
+        blocks = {}
+        pref = "github.com/vulcand/oxy/v2/"
+        for l in open(txt):
+            m = re.match(r"(\S+):(\d+)\.(\d+),(\d+)\.(\d+) (\d+) (\d+)$", l.strip())
+            if not m or not m.group(1).startswith(pref):
+                continue
+            f = m.group(1)[len(pref):]
+            key = (f, int(m.group(2)), int(m.group(4)))
+            n, c = int(m.group(6)), int(m.group(7))
+            o = blocks.get(key, (n, 0))
+            blocks[key] = (n, o[1] + c)
+        per = {}
+        unc = []
+        for (f, a, b), (n, c) in sorted(blocks.items()):
+            if f not in anchors:
+                continue
+            t = per.setdefault(f, [0, 0])
+            t[0] += n
+            t[1] += n if c else 0
+            if not c:
+                unc.append("%s:%d-%d (%d stmts)" % (f, a, b, n))
+        self.extra["statement_coverage"] = {f: "%d/%d" % (t[1], t[0]) for f, t in per.items()}
+        os.makedirs(os.path.join(VERIF, "out", self.id), exist_ok=True)
+        with open(os.path.join(VERIF, "out", self.id, "coverage.txt"), "w") as fh:
+            fh.write("\n".join("%s %s" % kv for kv in sorted(self.extra["statement_coverage"].items())) + "\n\nuncovered blocks of anchored files:\n" + "\n".join(unc) + "\n")
 
     def run_batch(self, scens, timeout=None):
         """run scenarios through harness and driver; fills s.impl / s.model"""
@@ -541,6 +593,11 @@ class Check:
         return False
 
     def finish(self):
+        if COVER:
+            try:
+                self.coverage_report()
+            except Exception as e:
+                self.extra["statement_coverage"] = "failed: %r" % (e,)
         wall = time.time() - self.t0
         n_obl = len(self.obligations)
         n_ok = len([o for o in self.obligations if o[1]])
